@@ -195,6 +195,35 @@ func (r *checkRun) execute() int {
 		}
 	}
 
+	// many package directories (generated router harnesses): validate a seed-rotated sample of them natively,
+	// plus every directory that has counterexample candidates
+	if len(casesByDir) > 8 {
+		candDirs := map[string]bool{}
+		for _, c := range cands {
+			candDirs[c.h.dir] = true
+		}
+		var dirs []string
+		for d := range casesByDir {
+			dirs = append(dirs, d)
+		}
+		sort.Strings(dirs)
+		keep := map[string]bool{}
+		for i := 0; i < 6; i++ {
+			keep[dirs[(r.seed*7+i*11)%len(dirs)]] = true
+		}
+		var kept []valSample
+		for _, d := range dirs {
+			if !keep[d] && !candDirs[d] {
+				delete(casesByDir, d)
+			}
+		}
+		for _, s := range samples {
+			if _, ok := casesByDir[s.h.dir]; ok {
+				kept = append(kept, s)
+			}
+		}
+		samples = kept
+	}
 	native := map[string]vtResult{}
 	nativeErr := ""
 	if !r.noNative {
